@@ -47,6 +47,43 @@ chk("C07", "E1 trees + E7 faults", "explicit-state enumeration of construction p
 chk("C11", "E1 trees", "explicit-state enumeration of construction programs, well-formedness invariants on every map and stream",
     "every term of the ASCII scope: map(T/F) strictly increasing, lines >= 1, before end of text, indices inside tables, alphabet; all four stream modes: indices announced before use and dense from zero", TREE_NOTE, "5 C11")
 
+chk("C05", "E2 hist", "exhaustive enumeration of call histories (prefix tree to a depth bound) replayed on real objects against a reference model",
+    "every history of up to 5 (quick) / 6 (thorough) calls over 12-14 colliding mutators (equal keys, enforce, overlap, beyond the end, multi-byte) and 12 observers (source rope buffer size to_writer map stream hash clone Debug) on 4-6 inner sources: the answer of every observer equals the text model applied to the mutator subsequence, and map/stream/hash/Debug equal those of a never-observed twin; the sorted-flag abstraction is validated against the real flag and index after every observer",
+    "trusted: the splice model of the statement (mc/src/model.rs); bounded depth and alphabets; read-only hook ReplaceSource::verif_sorted_state", "5 C05")
+chk("C06", "E1 trees", "explicit-state enumeration of construction programs; per-position comparison of composite attribution with each child's own attribution",
+    "Concat: all ordered pairs of a pool of attributed leaves (SourceMapSource with several sources/names, scripted user sources announcing eagerly/lazily, with/without content, shared names), all triples of a reduced pool flat and nested: every position keeps file, content, line, column, name of its child (stream and map), per-line first mapped piece for columns=false. Replace: every pool element and pair as inner source x all replacement sets of size <= 2: survivors keep file/line/name, column within [col0, col0+offset] and exact where the statement determines it; replacement content carries the location active at its splice point and the given or inherited name",
+    TREE_NOTE + "; readings 6.2, 6.5 (splice point); inner sources containing a CachedSource are excluded from the Replace part (history-dependent chunking)", "5 C06")
+chk("C08", "E1 trees", "explicit-state enumeration of (text, map) pairs against a reference segment lookup",
+    "all texts of the alphabet x all maps with up to 5 (quick) / 6 (thorough) segments on every character or end-of-text position, each unmapped / 4-field / 5-field over 2 sources and 2 names, 4 sourceRoot settings, with and without sourcesContent: per-position attribution in all four (columns, final) modes, through map() of an enclosing ConcatSource, event-for-event equality with a user source using stream_chunks_default, declared tables equal to the map's",
+    TREE_NOTE, "5 C08")
+chk("C09", "E1 trees", "explicit-state enumeration of (generated text, outer map, original text, inner map, options) against a reference composition over decoded maps",
+    "all outer maps of <= 2 (quick) / 3 (thorough) segments pointing into the inner source at every position of the original text (with/without outer name) or into other sources, 3 outer source tables, all inner maps of <= 2/3 segments, original_source given or from outer sourcesContent, remove_original_source, columns: file/line/content/name per position by map() and stream; column interval and exactness rule; names as 'inner, else outer if it matches the original text, else none'",
+    TREE_NOTE + "; consistent maps only (wild ones are C17)", "5 C09")
+chk("C10", "E2 hist", "exhaustive enumeration of call histories over two handles (original, clone) replayed on real objects against a never-cached build",
+    "every history of up to 4 (quick) / 5 (thorough) calls from {source buffer size rope hash map(T) map(F) stream x 4 modes} on the original and its clone over 24+ wrapped trees: the answer of the last call equals what a fresh never-cached build of the wrapped tree answers (text, size, GeneratedInfo, per-position attribution); the cache snapshot after every call must extend the previous one (entries never change or vanish)",
+    "trusted: attribution resolver; bounded depth/pool; read-only hook CachedSource::verif_cache_snapshot; wrapped trees contain no CachedSource beneath a ReplaceSource", "5 C10")
+chk("C12", "E4 codec", "exhaustive enumeration of mapping sequences, single-field deltas and v3-grammar strings against an independent reference codec",
+    "all sorted sequences of <= 2 segments over a boundary-value alphabet (3-4 over a reduced one) through encode_mappings, decode_mappings and the reference decoder (subsequence, per-position attribution, drop rule, re-encoding, line-only encoder); every single-field delta of magnitude < 2^20 in each field, both signs; decoder vs reference decoder on 5.6 M strings of the v3 grammar incl. redundant continuation digits, empty segments, several ';'",
+    "trusted: mc/src/refcodec.rs written from the source-map v3 description; generated lines kept small (one ';' per line)", "5 C12")
+chk("C13", "E1 trees", "explicit-state enumeration of triples of trees x grouping/wrapper laws, per-position differential comparison",
+    "all ordered triples of a pool x 8 grouping styles (typed/boxed/added later/double boxed) against the flat concatenation; per pool element: single-child concat, Cached, Cached(Cached), Boxed, Replace without replacements, 15 empty-concatenation forms, every single and paired empty insertion (column may advance, reading 6.2): same text and same per-position attribution by map() and by stream for both column settings",
+    TREE_NOTE, "5 C13")
+chk("C14", "E2 hist", "exhaustive enumeration of (tree, twin / single-edit neighbour, observer prefix pair) on real objects",
+    "146+ trees of every type, each built twice: for all pairs of observer prefixes of <= 2 calls from {source map(T) map(F) stream hash size clone}: twins compare equal both ways, hash equal, hash unchanged from the fresh value, every observer answers what a fresh value answers, a clone equals its original; for every single edit at every node and prefixes of <= 1 call: a == b implies equal hashes and equal answers, == is symmetric",
+    "trusted: attribution resolver; bounded pool and prefix length; trees with a CachedSource beneath a ReplaceSource excluded", "5 C14")
+chk("C15", "E6 json", "exhaustive enumeration of SourceMap values and JSON documents over a string alphabet x field lattice, independent parser as oracle",
+    "every ordered pair of the 7 string fields x every pair of 12 strings (quotes, backslash, NUL, U+1F, DEL, U+2028/9, non-ASCII, astral) x presence of file/sourceRoot/debugId x sourcesContent mode: to_json == to_writer, serde_json reads a version-3 object with the same fields, from_json/from_slice/from_reader agree and round-trip; documents with nulls, missing arrays and reordered keys read as stated",
+    "trusted: serde_json as the independent parser", "5 C15")
+chk("C16", "E3 rope", "breadth-first explicit-state search over rope construction programs, state = exact piece structure, String reference model",
+    "BFS to depth 3 over 6 pieces (empty, ASCII, line break, 2-/4-byte chars): new/from/from_iter(all tuples <= 2) then add, append (both ways), byte_slice (every pair of char boundaries), lines()[i] from every state; in every state all unary observers incl. get_byte_slice for every (s,e) in 0..=len+1; == and starts_with for all ordered pairs among the first 2500/8000 states",
+    "trusted: std String semantics; Hash of Rope not compared", "5 C16")
+chk("C17", "E4 codec + E6 json + E1 trees", "exhaustive enumeration of inputs (strings, byte strings, single-edit neighbourhoods, wild trees) in two build profiles, panic/abort/hang as the only oracle",
+    "decode_mappings on all strings of length <= 6/8 over a 9-character alphabet plus continuation runs 1..=40 in every field position; the three parsers on all byte strings of length <= 2/3 and the complete single-edit neighbourhood of 12 valid documents; every Source method and 4 stream modes on the wild tree scope and on 16 M SourceMapSource-with-inner-map cases whose segments/indices point outside text and tables; everything in the overflow-checked profile and again in release",
+    "trusted: catch_unwind + subprocess isolation; worker wall limit as hang detector; bounded lengths", "5 C17")
+chk("C20", "E2 hist", "exhaustive enumeration of (tree, single edit) and (tree, tree) pairs; reproducibility across processes, threads and observer histories",
+    "for every tree of the pool and every single edit at every node (text, file name, replacement start/end/content/name/enforce/order, child added/removed/swapped, map mappings/sources/contents/names/file/root, inner map, original source, remove flag) and every ordered pair of pool trees: if source(), buffer() or map() differ then the values compare unequal and hash differently under SipHash and FxHash; pool hash digest identical in 16 processes, 4 threads and after every observer prefix of <= 2 calls",
+    "trusted: 64-bit collisions treated as violations; SourceMapSource name and debugId excluded (statement, reading 6.3)", "5 C20")
+
 ALL = ["C%02d" % i for i in range(1, 21)]
 NOT_YET = {p: "check not built yet in this round (machinery under construction; see DESIGN.md section 5 for the planned exhaustive exploration)" for p in ALL if p not in CHECKS}
 
